@@ -833,7 +833,11 @@ class ListBox(Widget, WidgetContainerMixin):
             raise IndexError("Can't set focus, ListBox is empty")
 
         # (a position the walker rejects must not leave a pending request behind)
-        self._body.set_focus(position)
+        try:
+            self._body.set_focus(position)
+        except TypeError as exc:
+            # a position of the wrong type is an invalid position like any other
+            raise IndexError(f"No widget at position {position!r}").with_traceback(exc.__traceback__) from exc
         self.set_focus_pending = coming_from, focus_widget, focus_pos
 
     def get_focus(self):
